@@ -214,7 +214,16 @@ func (w *Writer) recoverTail() error {
 	if err := validateFileHeader(*readInfo, w.info); err != nil {
 		return err
 	}
-	return w.clearStaleTail()
+	if err := w.clearStaleTail(); err != nil {
+		return err
+	}
+	// What we just accepted may only be in the OS page cache: if the previous
+	// process died between writing a batch and fsyncing it, the batch reads back
+	// complete now but a power loss could still remove it. Callers treat
+	// everything a recovered segment reports as durable (the WAL may commit meta
+	// data that refers to it, e.g. when completing an interrupted rotation), so
+	// make it so.
+	return w.wf.Sync()
 }
 
 // clearStaleTail zeroes whatever is left in the file after the recovered write
